@@ -268,7 +268,13 @@ pub fn main(tier: Tier, _replay: Option<String>) -> i32 {
     // real chain: blocks keep hash / signature validity / verdict across wire and disk
     {
         let w = match super::c01::positions(&tier) {
-            Ok(mut p) => p.remove(3).w,
+            Ok(p) => match p.into_iter().find(|x| x.name == "wrapped-g3-fees") {
+                Some(x) => x.w,
+                None => {
+                    rep.machinery("chain corpus: position wrapped-g3-fees missing".into());
+                    return rep.finish();
+                }
+            },
             Err(e) => {
                 rep.machinery(format!("chain corpus: {}", e));
                 return rep.finish();
